@@ -73,8 +73,10 @@ SfCrystals == Crystals \cup {"mixedI", "mixedC"}
 Init == /\ \/ \E x \in SfCrystals, th \in BOOLEAN, occ \in BOOLEAN, gm \in 1..2, lz \in BOOLEAN, sc \in BOOLEAN :
                  c = [k |-> "sf", crystal |-> x, thermal |-> th, partial_occupancy |-> occ, g_max |-> gm, lazy |-> lz, small_chunks |-> sc]
            \* order: how the requested thickness list is arranged (each row must belong to the thickness it is requested for)
-           \/ \E x \in Crystals, o \in 1..4, e \in 1..2, sg \in 1..2, gm \in 1..2, weq \in BOOLEAN, ord \in {"ascending", "descending", "unsorted", "repeated"} :
-                 c = [k |-> "dyn", crystal |-> x, orientation |-> o, energy |-> e, sg_max |-> sg, g_max |-> gm, use_wave_eq |-> weq, order |-> ord]
+           \/ \E x \in Crystals, o \in 1..4, e \in 1..2, sg \in 1..2, gm \in 1..2, weq \in BOOLEAN, ord \in {"ascending", "descending", "unsorted", "repeated"}, pre \in BOOLEAN :
+                 \* prebuilt: the structure factors are built once (eagerly) and the array has already been used by an earlier calculation
+                 c = [k |-> "dyn", crystal |-> x, orientation |-> o, energy |-> e, sg_max |-> sg, g_max |-> gm, use_wave_eq |-> weq, order |-> ord,
+                      prebuilt |-> pre]
         /\ done = FALSE
 Next == ~done /\ done' = TRUE /\ UNCHANGED c
 Spec == Init /\ [][Next]_vars
